@@ -282,6 +282,24 @@ def run(check, repo: Repo) -> None:
     check.decide(ok, "C12-R5", "ProbeBase.check_probe_params: defocus recovered from C10 with the sign flipped", "", pm.line(cpp),
                  fail_detail="the inverse site derives defocus from C10 without negation")
 
+    # ---- R7 the cross-correlation fit seeds its reconstruction with the caller's guess only --------------------------------------------
+    # the shifts handed to the fit are (measured − initial_shifts) with initial_shifts computed from the caller's guess alone; a seeding
+    # reconstruct() that still sees the previous optimum pre-shifts the images by coefficients the bookkeeping does not know about
+    from ..core.cfg import CFG
+    DPm = "quantem.diffractive_imaging.direct_ptychography"
+    dpmod, fcc = repo.func(f"{DPm}:DirectPtychography.fit_hyperparameters_cross_correlation")
+    check.analysed(f"{DPm}:DirectPtychography.fit_hyperparameters_cross_correlation")
+    fcfg = CFG(fcc)
+    clears = [n for c in calls_in(fcc) if isinstance(c.func, ast.Attribute) and c.func.attr == "clear_optimized" for n in fcfg.node_containing(c)]
+    recons = [n for c in calls_in(fcc) if (call_name(c) or "") == "self.reconstruct" for n in fcfg.node_containing(c)]
+    if not recons:
+        raise AnalysisError("fit_hyperparameters_cross_correlation: seeding self.reconstruct(…) call not found")
+    first = min(recons, key=lambda n: fcfg.nodes[n].lineno)
+    ok = bool(clears) and any(fcfg.dominates(c_, first) for c_ in clears)
+    check.decide(ok, "C12-R7", "fit_hyperparameters_cross_correlation clears the previous optimum before the seeding reconstruction", "", dpmod.line(fcfg.nodes[first].stmt),
+                 fail_detail="clear_optimized() does not dominate the seeding self.reconstruct(…): on a second fit the images are pre-shifted with the stale optimised coefficients while "
+                             "initial_shifts only accounts for the caller's guess — the fit no longer returns the values that generated the shifts")
+
     # ---- R6 fit: polar decomposition algebra and coefficient extraction -------------------------------
     _, tp = repo.func(f"{DU}:_torch_polar")
     _rule_polar(check, repo.module(DU), tp)
@@ -354,6 +372,26 @@ def _rule_polar(check, dmod, fn) -> None:
         inner = adjoint_of(e)
         if inner is not None:
             return adj(atoms(inner, depth + 1))
+        if isinstance(e, ast.Call) and isinstance(e.func, ast.Attribute) and e.func.attr in ("to", "type", "contiguous", "clone") and not (call_name(e) or "").startswith("torch."):
+            return atoms(e.func.value, depth + 1)  # dtype / memory-layout conversions
+        if isinstance(e, ast.BinOp) and isinstance(e.op, ast.Mult):
+            # broadcasting the vector of singular values: X * S scales the COLUMNS of X (= X·diag S), S[:, None] * X scales the ROWS (= diag S·X)
+            def s_form(x):
+                while isinstance(x, ast.Call) and isinstance(x.func, ast.Attribute) and x.func.attr in ("to", "type"):
+                    x = x.func.value
+                if isinstance(x, ast.Name) and x.id == Sg:
+                    return "cols"
+                if isinstance(x, ast.Subscript) and isinstance(x.value, ast.Name) and x.value.id == Sg:
+                    t_ = unparse(x.slice).replace(" ", "")
+                    return {"(slice(None,None,None),None)": "rows", ":,None": "rows", "None,:": "cols", "...,None": "rows", "None": "cols"}.get(t_)
+                if isinstance(x, ast.Call) and isinstance(x.func, ast.Attribute) and x.func.attr == "unsqueeze" and isinstance(x.func.value, ast.Name) and x.func.value.id == Sg and x.args:
+                    return {"-1": "rows", "1": "rows", "0": "cols", "-2": "cols"}.get(unparse(x.args[0]))
+                return None
+            for a_, b_ in ((e.left, e.right), (e.right, e.left)):
+                f_ = s_form(b_)
+                if f_ is not None:
+                    other = atoms(a_, depth + 1)
+                    return other + ["S"] if f_ == "cols" else ["S"] + other
         if isinstance(e, ast.Name):
             if e.id in (U, Vh):
                 return [e.id]
